@@ -322,5 +322,7 @@ _run_before_round5 = run
 def run(facts, rep, ctx):
     """rules added after the fourth seeding round (rules/round5.py)"""
     _run_before_round5(facts, rep, ctx)
-    from . import round5
+    from . import round5, round2
     round5.ob1(facts, rep)
+    # Match/Subst labels follow the configured ambiguity only if a pattern symbol always matches itself (rule SB-11 of C09)
+    round2.sb11(facts, rep)
